@@ -34,6 +34,31 @@ fn subquery_runtime() -> &'static tokio::runtime::Runtime {
 fn run_subquery_blocking(
     physical: Arc<dyn crate::physical::PhysicalOperator>,
 ) -> Result<Vec<RecordBatch>> {
+    #[cfg(qe_verif)]
+    if crate::verif::knobs::flag("subquery.single_thread_runtime") {
+        // Simulation: the whole sub-plan runs on ONE fresh single-threaded
+        // runtime, so its task interleaving is repeatable.
+        return std::thread::spawn(move || {
+            let rt = tokio::runtime::Builder::new_current_thread()
+                .enable_all()
+                .build()
+                .map_err(|e| QueryError::Execution(e.to_string()))?;
+            rt.block_on(async {
+                let (batches, _size) =
+                    crate::physical::operators::spillable::collect_input_partitions_concurrently(
+                        &physical,
+                    )
+                    .await?;
+                Ok(batches)
+            })
+        })
+        .join()
+        .unwrap_or_else(|_| {
+            Err(QueryError::Execution(
+                "Subquery execution thread panicked".into(),
+            ))
+        });
+    }
     let rt = subquery_runtime();
     std::thread::spawn(move || {
         // Drain EVERY declared partition, not just partition 0: a CTE body or
